@@ -801,6 +801,15 @@ def rulePODInterval(ts: datetime, p: Time, i: Interval) -> Optional[Interval]:
             minute=i.t_from.minute,
             DOW=i.t_from.DOW,
         )
+    if (
+        t_from is not None
+        and t_to is not None
+        and t_from.hasDate
+        and t_to.hasDate
+        and t_from.dt >= t_to.dt
+    ):
+        # shifting one end into the part of day must not invert a dated range
+        return None
     return Interval(t_from=t_from, t_to=t_to)
 
 
